@@ -4,6 +4,7 @@ pub mod grad;
 pub mod hist;
 pub mod io;
 pub mod mapgen;
+pub mod pipe;
 pub mod prng;
 pub mod runner;
 pub mod seams;
